@@ -83,6 +83,7 @@ def gen_reduce_case(
     sort_choices=None,
     unsorted_expected_p: float = 0.0,
     by_dask_any_method: bool = False,
+    block_missing_p: float = 0.08,
 ) -> dict:
     func = tape.choice("gen.func", funcs)
     method = tape.choice("gen.method", methods)
@@ -165,6 +166,17 @@ def gen_reduce_case(
             c = gen_chunks(tape, n, max_blocks=max_blocks, style="random")
             tries += 1
         chunks.append(c)
+    block_missing = False
+    if (block_missing_p and kind == "float" and len(chunks[-1]) >= 2 and method != "blockwise" and func not in BLOCKWISE_ONLY
+            and not (func in ("nanargmax", "nanargmin") and dt.kind == "f") and tape.chance("gen.blockmiss", block_missing_p)):
+        # every label of one whole block is missing (a block that contributes no group at all)
+        k = tape.draw("gen.blockmiss.k", len(chunks[-1]))
+        edges = np.concatenate([[0], np.cumsum(chunks[-1])])
+        lab2 = np.array(labels, dtype="f8")
+        lab2[edges[k]:edges[k + 1]] = np.nan
+        if not np.isnan(lab2).all():
+            labels = lab2
+            block_missing = True
     by_dask = tape.chance("gen.bydask", by_dask_p) and (by_dask_any_method or method in (None, "map-reduce"))
     expected_mode = tape.choice("gen.expected", expected_modes)
     kwargs: dict = {"func": func}
@@ -258,7 +270,7 @@ def gen_reduce_case(
         "by_dask": bool(by_dask),
         "kwargs": enc_value(kwargs),
         "knobs": swarm_knobs(tape, nblocks, allow_faults=allow_faults),
-        "meta": {"pattern": pattern, "label_kind": kind, "ngroups": int(ngroups)},
+        "meta": {"pattern": pattern, "label_kind": kind, "ngroups": int(ngroups), "block_missing": block_missing},
     }
     return case
 
